@@ -196,7 +196,13 @@ class World(object):
         kw = {}
         if optional:
             kw["optional"] = optional
-        if kind == "plain":
+        creq, copt = s.get("cls_req", 0), s.get("cls_opt", 0)
+        if kind in ("plain", "plugin") and (creq or copt):
+            base = vplain if kind == "plain" else s.get("ptype", plugins.component)
+            ctype = type("T%d_%s" % (cid, tag), (base,), {"requires": items[:creq], "optional": optional[:copt]})
+            kw2 = {"optional": optional[copt:]} if optional[copt:] else {}
+            deco = ctype(*items[creq:], **kw2)
+        elif kind == "plain":
             deco = vplain(*items, **kw)
         elif kind == "plugin":
             deco = s.get("ptype", plugins.component)(*items, **kw)
@@ -438,6 +444,12 @@ def gen_spec(rng, n, fault_rate=0.25, with_points=True, with_ignore=False, seede
                     s["items"].append(("o", rng.choice(lower)))
             if kind not in ("parser1", "parser0") and rng.random() < 0.35:
                 s["optional"] = [rng.choice(lower) for _ in range(rng.randint(1, 2))]
+        if kind in ("plain", "plugin") and (s["items"] or s["optional"]) and rng.random() < 0.3:
+            # part of the declaration lives on the component TYPE (class-level `requires` / `optional` of a
+            # ComponentType subclass, prepended to what the decorator is given): the first cls_req items and the
+            # first cls_opt optional dependencies are declared there, the rest through the decorator call
+            s["cls_req"] = rng.randint(0, len(s["items"]))
+            s["cls_opt"] = rng.randint(0, len(s["optional"]))
         if kind in ("parser1", "parser0"):
             # a parser's first required dependency is the spec it parses
             first = rng.choice(multi_ds) if (multi_ds and rng.random() < 0.6) else (rng.choice(ds) if ds else rng.choice(lower))
@@ -565,6 +577,38 @@ def unstrip(spec):
     return out
 
 
+def loaded_archive_history(world, graph, pre, store_skips, shared):
+    """
+    One evaluation of a LOADED archive: SerializedArchiveContext in the broker, the components of `pre` already present,
+    the graph handed over the way insights._run / get_subgraphs do it (its values are the registry's own edge sets).
+    Returns (exception or None, declared edges before, declared edges after) for the graph's components.
+    """
+    from insights.core.context import SerializedArchiveContext
+    keys = list(graph)
+
+    def edges():
+        return dict((world.ids[c], (sorted(world.ids.get(d, -1) for d in dr.get_dependencies(c)),
+                                    sorted(world.ids.get(d, -1) for d in dr.get_delegate(c).dependencies),
+                                    sorted(world.ids.get(d, -1) for d in dr.COMPONENTS[dr.get_group(c)].get(c, ()))))
+                    for c in keys)
+    before = edges()
+    hb = world.new_broker([tuple(x) for x in pre], store_skips)
+    hb[SerializedArchiveContext] = SerializedArchiveContext()
+    instrument(world, hb)
+    if shared == "deps":
+        g1 = dict((c, dr.get_dependencies(c)) for c in keys)
+    elif shared == "group":
+        g1 = dict((c, dr.COMPONENTS[dr.get_group(c)][c]) for c in keys if c in dr.COMPONENTS[dr.get_group(c)])
+    else:
+        g1 = dict((c, dr.get_delegate(c).dependencies) for c in keys)
+    err = None
+    try:
+        dr.run(g1, broker=hb)
+    except Exception as ex:
+        err = ex
+    return err, before, edges()
+
+
 _replay_counter = [0]
 
 
@@ -581,6 +625,14 @@ def rebuild(case):
     graph = world.graph_for(case["targets"])
     if case.get("dropped") is not None and not case.get("_keep_dropped"):
         graph.pop(world.comps[case["dropped"]], None)
+    if case.get("mode") == "loaded-archive-history":
+        # the recorded history: first the evaluation of a loaded archive, then the recorded evaluation on the graph as
+        # the registry gives it afterwards
+        world.history = loaded_archive_history(world, graph, case["pre"], case.get("store_skips", False), case["shared"])
+        case["_replaying"] = True
+        graph = world.graph_for(case["targets"])
+        if case.get("dropped") is not None and not case.get("_keep_dropped"):
+            graph.pop(world.comps[case["dropped"]], None)
     return world, seeds, graph
 
 
@@ -592,7 +644,10 @@ def generic_replay(data, oracle, observers=()):
     order = None
     if case.get("order") is not None and not case.get("late") and case.get("mode") != "run":
         order = [world.comps[i] for i in case["order"]]
-    r = evaluate(world, seeds, case.get("store_skips", False), graph, order=order, mode="run" if (case.get("late") or case.get("mode") == "run") else "components",
+    if case.get("eval_mode") == "run":
+        order = None
+    r = evaluate(world, seeds, case.get("store_skips", False), graph, order=order,
+                 mode="run" if (case.get("late") or case.get("mode") == "run" or case.get("eval_mode") == "run") else "components",
                  observers=observers)
     print("implementation:", r.text)
     found = []
